@@ -186,7 +186,7 @@ func runC01(c *core.Ctx) {
 				return
 			}
 			for _, ref := range *mc.Referrers() {
-				if e.startsSender(ref) {
+				if e.startsSender(ref) || core.IsOnceBoundStore(ref) {
 					continue
 				}
 				c.Unk("R1", "sender-value-escapes/"+core.FName(fn), p.InstrPos(ref), "method value of the sender is used other than as the argument of Executor.Exec / go / call")
